@@ -50,6 +50,10 @@ def _expr_strategy(allow_cn):
 
     atom = st.sampled_from(["@P(1)", "@P(2)", "@P('s')", "@P('boom')", "@P(3)"])
 
+    def site_only(inner):
+        # a plain rewritten call (so that the later argument certainly contains one)
+        return inner.map(lambda a: "{REC}(%s)" % a)
+
     def site(inner):
         forms = [
             inner.map(lambda a: "{REC}(%s)" % a),
@@ -62,8 +66,15 @@ def _expr_strategy(allow_cn):
             # for the outer call must survive the evaluation of the later ones
             st.tuples(inner, inner).map(lambda t: "{REC}(%s, k=%s)" % t),
             st.tuples(inner, inner).map(lambda t: "{REC}(%s, %s)" % t),
+            # (positional forms keep the statically rewritten path; sites with keywords compute their key at run time)
+            st.tuples(inner, inner).map(lambda t: "{REC}(%s, %s)" % t),
+            st.tuples(inner, inner).map(lambda t: "{REC}(%s, (lambda: %s)())" % t),
+            st.tuples(inner, inner).map(lambda t: "{REC}(%s, list(%s for _i in (0,)))" % t),
             st.tuples(inner, inner).map(lambda t: "{REC}(*[%s, %s])" % t),
             st.tuples(inner, inner).map(lambda t: "{REC}(%s, [%s for _i in (0, 1)])" % t),
+            st.tuples(inner, site_only(inner)).map(lambda t: "{REC}(%s, [%s for _i in (0, 1)])" % t),
+            st.tuples(inner, site_only(inner)).map(lambda t: "{REC}(%s, {_k: %s for _k in 'ab'})" % t),
+            st.tuples(inner, site_only(inner)).map(lambda t: "{REC}(%s, list(%s for _i in (0,)))" % t),
             st.tuples(inner, inner).map(lambda t: "{REC}(%s, k=list(%s for _i in (0,)))" % t),
             st.tuples(inner, inner).map(lambda t: "{REC}(%s, k=(lambda: %s)())" % t),
         ]
@@ -521,7 +532,10 @@ class Check:
 
     def run_task(self, task):
         st = R.Stats()
-        R.run_given(st, case_strategy(), run_case, task["seed"], task["n"], R.open_signatures(self.id))
+        # generation from this grammar is slow (recursive strategy + compile filter): a failing program is reported as
+        # generated, after at most 20 s of shrinking (minimality only; the replay file is valid either way)
+        R.run_given(st, case_strategy(), run_case, task["seed"], task["n"], R.open_signatures(self.id), shrink_budget_s=20.0,
+                    shrink=task["n"] > 1000)
         return st
 
     def run_case(self, spec):
